@@ -1,0 +1,228 @@
+//go:build verif
+
+package engine
+
+//@ ---------------------------------------------------------------- atom_concat/3, atom_chars/2, atom_codes/2 (C16)
+//@ -- Every call mode hands exactly the tuples of the relation to Unify/Delay, under the caller's vm, continuation and bindings;
+//@ -- every other outcome is the ISO error (constructor, valid type and culprit pinned), never a silent failure.
+//@ -- Not decided here (engine): `range` over a string is havocked by the encoder ("iteration order and coverage are not modelled"), so
+//@ -- that atom_concat's split positions are exactly the character boundaries, each once, in increasing order, is NOT proved; the
+//@ -- specification language has no substring, so of the two parts of a split only the lengths are pinned; ListIterator is trusted without
+//@ -- a postcondition, so "the elements of the list, each once, in order" rests on it.
+
+//@ -- unification is symmetric: the two terms may be handed over in either order
+//@ spec fun isAtomTerm(t Term, a Atom) bool = t is Atom && (t as Atom) == a
+//@ spec fun isCharListOf(t Term, s string) bool = t is charList && (t as charList) == s
+//@ spec fun isCodeListOf(t Term, s string) bool = t is codeList && (t as codeList) == s
+
+//@ -- the term tuple(x, y) builds: the compound ''(x, y) of the two atoms
+//@ spec fun isPairOfAtoms(t Term, x Atom, y Atom) bool = t is *compound && (t as *compound).functor == 0 && len((t as *compound).args) == 2 &&
+//@       (t as *compound).args[0] is Atom && ((t as *compound).args[0] as Atom) == x && (t as *compound).args[1] is Atom && ((t as *compound).args[1] as Atom) == y
+
+//@ func AtomConcat
+//@   property C16
+//@   nosafety
+//@   trusted-frame
+//@   frozen vm, k, env
+//@   resolves-before-inspecting
+//@   let r1 = resolve(env, atom1)
+//@   let r2 = resolve(env, atom2)
+//@   let r3 = resolve(env, atom3)
+//@   bind one = Delay#1
+//@   bind alts = Delay#2
+//@   bind part = append#1
+//@   bind whole = append#2
+//@   bind ie1 = InstantiationError#1
+//@   bind ie2 = InstantiationError#2
+//@   loop 1 invariant true
+//@   -- mode (+,+,-): the concatenation, one answer (AtomConcat$1)
+//@   ensures[two-atoms-have-their-concatenation] r3 is Variable && r1 is Atom && r2 is Atom ==> called(one) && result == one
+//@   at-call Delay#1 requires[the-concatenation-is-the-only-answer-and-only-when-both-parts-are-atoms-and-the-whole-is-unbound] r3 is Variable && r1 is Atom && r2 is Atom && len(a0) == 1
+//@   -- mode (?,?,+): one alternative per position the loop visits (AtomConcat$2), in that order, then the whole atom with '' (AtomConcat$3)
+//@   ensures[every-atom-is-split-also-when-parts-are-given] r3 is Atom && (r1 is Variable || r1 is Atom) && (r2 is Variable || r2 is Atom) ==> called(alts) && result == alts
+//@   at-call Delay#2 requires[splits-are-offered-only-for-an-atom-and-parts-that-are-atoms-or-unbound] r3 is Atom && (r1 is Variable || r1 is Atom) && (r2 is Variable || r2 is Atom)
+//@   at-call Delay#2 requires[every-collected-alternative-is-offered-and-the-whole-atom-with-the-empty-atom-comes-last] called(whole) && a0 == whole && len(a0) >= 1
+//@   at-call tuple requires[the-pattern-is-the-caller-s-first-two-arguments] len(a0) == 2 && a0[0] == atom1 && a0[1] == atom2
+//@   at-call append#1 requires[each-position-adds-one-alternative-after-those-of-the-earlier-positions] a0 == ks && len(a1) == 1
+//@   loop 1 maintains[every-position-visited-adds-its-alternative] called(part)
+//@   at-call append#2 requires[the-last-alternative-comes-after-those-of-all-positions] a0 == ks && len(a1) == 1
+//@   at-call append#1 requires[at-a-position-within-the-text-the-first-part-has-the-bytes-before-it-and-the-second-part-the-rest] r3 is Atom && s == Atom.String(r3 as Atom) &&
+//@       (0 <= i && i < len(s) ==> len(local(a1, string)) == i && len(local(a2, string)) == len(s) - i)
+//@   -- errors (ISO 8.16.2.3): instantiation errors only while the whole is unbound; every type error demands an atom and names the argument
+//@   ensures[an-unbound-whole-needs-the-first-part] r3 is Variable && r1 is Variable ==> called(ie1) && result != nil && result.err == ie1
+//@   ensures[an-unbound-whole-needs-the-second-part] r3 is Variable && r1 is Atom && r2 is Variable ==> called(ie2) && result != nil && result.err == ie2
+//@   ensures[a-whole-that-is-neither-unbound-nor-an-atom-is-a-type-error] !(r3 is Variable) && !(r3 is Atom) ==> result != nil && isTypeErr(result.err, validTypeAtom, atom3)
+//@   ensures[a-first-part-that-is-neither-unbound-nor-an-atom-is-a-type-error] (r3 is Variable || r3 is Atom) && !(r1 is Variable) && !(r1 is Atom) ==> result != nil && isTypeErr(result.err, validTypeAtom, atom1)
+//@   ensures[a-second-part-that-is-neither-unbound-nor-an-atom-is-a-type-error] ((r3 is Variable && r1 is Atom) || (r3 is Atom && (r1 is Variable || r1 is Atom))) && !(r2 is Variable) && !(r2 is Atom) ==>
+//@       result != nil && isTypeErr(result.err, validTypeAtom, atom2)
+//@   at-call InstantiationError requires[the-error-is-built-under-the-caller-s-bindings-and-only-while-the-whole-is-unbound] a0 == env && r3 is Variable
+//@   at-call typeError requires[the-only-type-demanded-is-atom-and-the-error-is-built-under-the-caller-s-bindings] a0 == validTypeAtom && a2 == env
+
+//@ func AtomConcat$1
+//@   property C16
+//@   nosafety
+//@   let whole = a3
+//@   let first = a1
+//@   let second = a2
+//@   bind cat = NewAtom#1
+//@   at-call NewAtom requires[the-name-is-the-first-atom-s-text-followed-by-the-second-atom-s-text] a0 == Atom.String(first) + Atom.String(second)
+//@   at-call Unify requires[the-unbound-third-argument-receives-the-atom-of-that-name] called(cat) && ((a1 is Variable && (a1 as Variable) == whole && isAtomTerm(a2, cat)) || (a2 is Variable && (a2 as Variable) == whole && isAtomTerm(a1, cat)))
+//@   at-call Unify requires[the-answer-goes-to-the-caller-s-continuation-under-the-caller-s-bindings] a0 == vm && a3 == k && a4 == env
+
+//@ func AtomConcat$2
+//@   property C16
+//@   nosafety
+//@   captures-copy a1 string
+//@   captures-copy a2 string
+//@   let first = a1
+//@   let second = a2
+//@   bind n1 = NewAtom#1
+//@   bind n2 = NewAtom#2
+//@   at-call NewAtom#1 requires[the-first-part-names-the-first-atom] a0 == first
+//@   at-call NewAtom#2 requires[the-second-part-names-the-second-atom] a0 == second
+//@   at-call tuple requires[the-split-is-first-part-then-second-part] called(n1) && called(n2) && len(a0) == 2 && a0[0] is Atom && (a0[0] as Atom) == n1 && a0[1] is Atom && (a0[1] as Atom) == n2
+//@   at-call Unify requires[each-alternative-offers-its-own-split-to-the-caller-s-pattern] called(n1) && called(n2) && ((a1 == pattern && isPairOfAtoms(a2, n1, n2)) || (a2 == pattern && isPairOfAtoms(a1, n1, n2)))
+//@   at-call Unify requires[the-answer-goes-to-the-caller-s-continuation-under-the-caller-s-bindings] a0 == vm && a3 == k && a4 == env
+
+//@ func AtomConcat$3
+//@   property C16
+//@   nosafety
+//@   let whole = a3
+//@   at-call tuple requires[the-last-split-is-the-whole-atom-and-the-empty-atom] len(a0) == 2 && a0[0] is Atom && (a0[0] as Atom) == whole && a0[1] is Atom && (a0[1] as Atom) == atomEmpty
+//@   at-call Unify requires[the-last-alternative-offers-the-whole-atom-and-the-empty-atom-to-the-caller-s-pattern] (a1 == pattern && isPairOfAtoms(a2, whole, atomEmpty)) || (a2 == pattern && isPairOfAtoms(a1, whole, atomEmpty))
+//@   at-call Unify requires[the-answer-goes-to-the-caller-s-continuation-under-the-caller-s-bindings] a0 == vm && a3 == k && a4 == env
+
+//@ -- strings.Builder (transcribed from $GOROOT/src/strings/builder.go: "String returns the accumulated string", "WriteString appends the
+//@ -- contents of s to b's buffer. It returns the length of s and a nil error", "WriteRune appends the UTF-8 encoding of Unicode code point r").
+//@ -- The accumulated string is an abstract function of the builder and of a ghost version number that every write changes; nothing is
+//@ -- assumed about HOW a write changes the text (the built-ins below pin what is written, by at-call clauses).
+//@ spec abstract builderText(b *strings.Builder, version int) string
+//@ extern (*strings.Builder).WriteString
+//@   modifies *b, gf(sbversion, b)
+//@   ensures result1 == nil
+//@ extern (*strings.Builder).WriteRune
+//@   modifies *b, gf(sbversion, b)
+//@   ensures result1 == nil
+//@ extern (*strings.Builder).String
+//@   modifies nothing
+//@   ensures result == builderText(b, gf(sbversion, b))
+
+//@ func AtomChars
+//@   property C16
+//@   nosafety
+//@   trusted-frame
+//@   resolves-before-inspecting
+//@   let ra = resolve(env, atom)
+//@   bind cur1 = (*ListIterator).Current#1
+//@   bind cur2 = (*ListIterator).Current#2
+//@   bind lerr1 = (*ListIterator).Err#1
+//@   bind lerr2 = (*ListIterator).Err#2
+//@   bind name = NewAtom#1
+//@   bind made = Unify#1
+//@   bind none = Unify#2
+//@   bind listed = Unify#3
+//@   loop 1 invariant true
+//@   loop 2 invariant true
+//@   -- both modes walk the second argument under the caller's bindings; a partial list only when the atom is given
+//@   at-store ListIterator.List requires[the-list-walked-is-the-second-argument] v == chars
+//@   at-store ListIterator.Env requires[the-list-is-walked-under-the-caller-s-bindings] v == env
+//@   at-store ListIterator.AllowPartial requires[a-partial-list-is-admitted-only-when-the-atom-is-given] ra is Atom && v
+//@   -- mode (-,+): the atom whose name is the characters of the list, in order
+//@   at-call (*Env).Resolve#2 requires[each-element-is-looked-at-under-the-caller-s-bindings] a0 == env && called(cur1) && a1 == cur1
+//@   at-call InstantiationError#1 requires[an-unbound-element-of-the-list-is-an-instantiation-error] ra is Variable && called(cur1) && resolve(env, cur1) is Variable && a0 == env
+//@   at-call typeError#1 requires[an-atom-of-another-length-than-one-character-is-not-a-character] called(cur1) && resolve(env, cur1) is Atom && len(runes(Atom.String(resolve(env, cur1) as Atom))) != 1 &&
+//@       a0 == validTypeCharacter && a1 == resolve(env, cur1) && a2 == env
+//@   at-call typeError#2 requires[an-element-that-is-not-an-atom-is-not-a-character] called(cur1) && !(resolve(env, cur1) is Variable) && !(resolve(env, cur1) is Atom) &&
+//@       a0 == validTypeCharacter && a1 == resolve(env, cur1) && a2 == env
+//@   at-call (*strings.Builder).WriteString requires[each-single-character-atom-contributes-its-character-at-the-end-of-the-text] a0 == &sb && called(cur1) && resolve(env, cur1) is Atom &&
+//@       len(runes(Atom.String(resolve(env, cur1) as Atom))) == 1 && a1 == Atom.String(resolve(env, cur1) as Atom)
+//@   loop 1 maintains[every-element-passed-is-a-single-character] called(cur1) && resolve(env, cur1) is Atom && len(runes(Atom.String(resolve(env, cur1) as Atom))) == 1
+//@   at-call (*strings.Builder).String requires[the-name-is-read-from-the-text-the-characters-went-into] a0 == &sb
+//@   at-call NewAtom requires[the-atom-is-named-by-the-collected-text] a0 == builderText(&sb, gf(sbversion, &sb))
+//@   at-call Unify#1 requires[the-unbound-first-argument-receives-the-atom-of-the-collected-characters-of-a-proper-list] ra is Variable && called(name) &&
+//@       ((a1 == atom && isAtomTerm(a2, name)) || (a2 == atom && isAtomTerm(a1, name))) && called(lerr1) && lerr1 == nil
+//@   ensures[a-proper-list-of-characters-has-its-atom] ra is Variable && called(lerr1) && lerr1 == nil ==> called(made) && result == made
+//@   ensures[a-list-that-is-partial-or-improper-is-that-error-when-the-atom-is-unbound] called(lerr1) && lerr1 != nil ==> result != nil && result.err == lerr1
+//@   -- mode (+,?): the list of the characters of the atom's name, in order
+//@   at-call (*Env).Resolve#3 requires[each-element-of-the-given-list-is-looked-at-under-the-caller-s-bindings] a0 == env && called(cur2) && a1 == cur2
+//@   at-call typeError#3 requires[an-atom-of-another-length-than-one-character-is-not-a-character] called(cur2) && resolve(env, cur2) is Atom && len(runes(Atom.String(resolve(env, cur2) as Atom))) != 1 &&
+//@       a0 == validTypeCharacter && a1 == resolve(env, cur2) && a2 == env
+//@   at-call typeError#4 requires[an-element-that-is-neither-unbound-nor-an-atom-is-not-a-character] called(cur2) && !(resolve(env, cur2) is Variable) && !(resolve(env, cur2) is Atom) &&
+//@       a0 == validTypeCharacter && a1 == resolve(env, cur2) && a2 == env
+//@   loop 2 maintains[every-element-passed-is-unbound-or-a-single-character] called(cur2) && (resolve(env, cur2) is Variable ||
+//@       (resolve(env, cur2) is Atom && len(runes(Atom.String(resolve(env, cur2) as Atom))) == 1))
+//@   at-call Unify#2 requires[the-empty-atom-has-the-empty-list] ra is Atom && len(Atom.String(ra as Atom)) == 0 &&
+//@       ((a1 == chars && isAtomTerm(a2, atomEmptyList)) || (a2 == chars && isAtomTerm(a1, atomEmptyList))) && called(lerr2) && lerr2 == nil
+//@   at-call Unify#3 requires[the-second-argument-receives-the-character-list-of-the-atom-s-name] ra is Atom &&
+//@       ((a1 == chars && isCharListOf(a2, Atom.String(ra as Atom))) || (a2 == chars && isCharListOf(a1, Atom.String(ra as Atom)))) && called(lerr2) && lerr2 == nil
+//@   ensures[the-empty-atom-has-its-empty-list] ra is Atom && called(lerr2) && lerr2 == nil && len(Atom.String(ra as Atom)) == 0 ==> called(none) && result == none
+//@   ensures[a-non-empty-atom-has-its-list-of-characters] ra is Atom && called(lerr2) && lerr2 == nil && len(Atom.String(ra as Atom)) > 0 ==> called(listed) && result == listed
+//@   ensures[a-list-that-is-improper-is-that-error-when-the-atom-is-given] called(lerr2) && lerr2 != nil ==> result != nil && result.err == lerr2
+//@   -- neither mode
+//@   at-call typeError#5 requires[the-error-is-built-under-the-caller-s-bindings] a2 == env
+//@   ensures[a-first-argument-that-is-neither-unbound-nor-an-atom-is-a-type-error] !(ra is Variable) && !(ra is Atom) ==> result != nil && (isTypeErr(result.err, validTypeAtom, ra) || isTypeErr(result.err, validTypeAtom, atom))
+//@   at-call InstantiationError requires[unbound-elements-are-an-error-only-when-the-atom-is-unbound-too] ra is Variable
+//@   ensures[with-an-unbound-atom-the-call-answers-or-raises-an-error-it-never-just-fails] ra is Variable ==> (called(made) && result == made) || (result != nil && result.err != nil)
+//@   ensures[with-an-atom-the-call-answers-or-raises-an-error-it-never-just-fails] ra is Atom ==> (called(none) && result == none) || (called(listed) && result == listed) || (result != nil && result.err != nil)
+//@   at-call Unify requires[an-answer-only-in-the-two-modes] ra is Variable || ra is Atom
+//@   at-call Unify requires[the-answer-goes-to-the-caller-s-continuation-under-the-caller-s-bindings] a0 == vm && a3 == k && a4 == env
+
+//@ func AtomCodes
+//@   property C16
+//@   nosafety
+//@   trusted-frame
+//@   resolves-before-inspecting
+//@   let ra = resolve(env, atom)
+//@   bind cur1 = (*ListIterator).Current#1
+//@   bind cur2 = (*ListIterator).Current#2
+//@   bind lerr1 = (*ListIterator).Err#1
+//@   bind lerr2 = (*ListIterator).Err#2
+//@   bind name = NewAtom#1
+//@   bind made = Unify#1
+//@   bind none = Unify#2
+//@   bind listed = Unify#3
+//@   loop 1 invariant true
+//@   loop 2 invariant true
+//@   -- both modes walk the second argument under the caller's bindings; a partial list only when the atom is given
+//@   at-store ListIterator.List requires[the-list-walked-is-the-second-argument] v == codes
+//@   at-store ListIterator.Env requires[the-list-is-walked-under-the-caller-s-bindings] v == env
+//@   at-store ListIterator.AllowPartial requires[a-partial-list-is-admitted-only-when-the-atom-is-given] ra is Atom && v
+//@   -- mode (-,+): the atom whose name is the characters with the codes of the list, in order
+//@   at-call (*Env).Resolve#2 requires[each-element-is-looked-at-under-the-caller-s-bindings] a0 == env && called(cur1) && a1 == cur1
+//@   at-call InstantiationError#1 requires[an-unbound-element-of-the-list-is-an-instantiation-error] ra is Variable && called(cur1) && resolve(env, cur1) is Variable && a0 == env
+//@   at-call typeError#1 requires[an-element-that-is-not-an-integer-is-not-a-code] called(cur1) && !(resolve(env, cur1) is Variable) && !(resolve(env, cur1) is Integer) &&
+//@       a0 == validTypeInteger && a1 == resolve(env, cur1) && a2 == env
+//@   at-call representationError#1 requires[an-integer-outside-the-code-range-is-not-a-character-code] called(cur1) && resolve(env, cur1) is Integer &&
+//@       ((resolve(env, cur1) as Integer) < 0 || (resolve(env, cur1) as Integer) > 1114111) && a0 == flagCharacterCode && a1 == env
+//@   at-call (*strings.Builder).WriteRune requires[each-code-contributes-the-character-with-exactly-that-code-at-the-end-of-the-text] a0 == &sb && called(cur1) && resolve(env, cur1) is Integer &&
+//@       0 <= (resolve(env, cur1) as Integer) && (resolve(env, cur1) as Integer) <= 1114111 && a1 == (resolve(env, cur1) as Integer)
+//@   loop 1 maintains[every-element-passed-is-a-code-within-the-range] called(cur1) && resolve(env, cur1) is Integer && 0 <= (resolve(env, cur1) as Integer) && (resolve(env, cur1) as Integer) <= 1114111
+//@   at-call (*strings.Builder).String requires[the-name-is-read-from-the-text-the-characters-went-into] a0 == &sb
+//@   at-call NewAtom requires[the-atom-is-named-by-the-collected-text] a0 == builderText(&sb, gf(sbversion, &sb))
+//@   at-call Unify#1 requires[the-unbound-first-argument-receives-the-atom-of-the-collected-characters-of-a-proper-list] ra is Variable && called(name) &&
+//@       ((a1 == atom && isAtomTerm(a2, name)) || (a2 == atom && isAtomTerm(a1, name))) && called(lerr1) && lerr1 == nil
+//@   ensures[a-proper-list-of-codes-has-its-atom] ra is Variable && called(lerr1) && lerr1 == nil ==> called(made) && result == made
+//@   ensures[a-list-that-is-partial-or-improper-is-that-error-when-the-atom-is-unbound] called(lerr1) && lerr1 != nil ==> result != nil && result.err == lerr1
+//@   -- mode (+,?): the list of the codes of the characters of the atom's name, in order
+//@   at-call (*Env).Resolve#3 requires[each-element-of-the-given-list-is-looked-at-under-the-caller-s-bindings] a0 == env && called(cur2) && a1 == cur2
+//@   at-call typeError#2 requires[an-element-that-is-neither-unbound-nor-an-integer-is-not-a-code] called(cur2) && !(resolve(env, cur2) is Variable) && !(resolve(env, cur2) is Integer) &&
+//@       a0 == validTypeInteger && a1 == resolve(env, cur2) && a2 == env
+//@   at-call representationError#2 requires[an-integer-outside-the-code-range-is-not-a-character-code] called(cur2) && resolve(env, cur2) is Integer &&
+//@       ((resolve(env, cur2) as Integer) < 0 || (resolve(env, cur2) as Integer) > 1114111) && a0 == flagCharacterCode && a1 == env
+//@   loop 2 maintains[every-element-passed-is-unbound-or-a-code-within-the-range] called(cur2) && (resolve(env, cur2) is Variable ||
+//@       (resolve(env, cur2) is Integer && 0 <= (resolve(env, cur2) as Integer) && (resolve(env, cur2) as Integer) <= 1114111))
+//@   at-call Unify#2 requires[the-empty-atom-has-the-empty-list] ra is Atom && len(Atom.String(ra as Atom)) == 0 &&
+//@       ((a1 == codes && isAtomTerm(a2, atomEmptyList)) || (a2 == codes && isAtomTerm(a1, atomEmptyList))) && called(lerr2) && lerr2 == nil
+//@   at-call Unify#3 requires[the-second-argument-receives-the-code-list-of-the-atom-s-name] ra is Atom &&
+//@       ((a1 == codes && isCodeListOf(a2, Atom.String(ra as Atom))) || (a2 == codes && isCodeListOf(a1, Atom.String(ra as Atom)))) && called(lerr2) && lerr2 == nil
+//@   ensures[the-empty-atom-has-its-empty-list] ra is Atom && called(lerr2) && lerr2 == nil && len(Atom.String(ra as Atom)) == 0 ==> called(none) && result == none
+//@   ensures[a-non-empty-atom-has-its-list-of-codes] ra is Atom && called(lerr2) && lerr2 == nil && len(Atom.String(ra as Atom)) > 0 ==> called(listed) && result == listed
+//@   ensures[a-list-that-is-improper-is-that-error-when-the-atom-is-given] called(lerr2) && lerr2 != nil ==> result != nil && result.err == lerr2
+//@   -- neither mode
+//@   at-call typeError#3 requires[the-error-is-built-under-the-caller-s-bindings] a2 == env
+//@   ensures[a-first-argument-that-is-neither-unbound-nor-an-atom-is-a-type-error] !(ra is Variable) && !(ra is Atom) ==> result != nil && (isTypeErr(result.err, validTypeAtom, ra) || isTypeErr(result.err, validTypeAtom, atom))
+//@   at-call InstantiationError requires[unbound-elements-are-an-error-only-when-the-atom-is-unbound-too] ra is Variable
+//@   ensures[with-an-unbound-atom-the-call-answers-or-raises-an-error-it-never-just-fails] ra is Variable ==> (called(made) && result == made) || (result != nil && result.err != nil)
+//@   ensures[with-an-atom-the-call-answers-or-raises-an-error-it-never-just-fails] ra is Atom ==> (called(none) && result == none) || (called(listed) && result == listed) || (result != nil && result.err != nil)
+//@   at-call Unify requires[an-answer-only-in-the-two-modes] ra is Variable || ra is Atom
+//@   at-call Unify requires[the-answer-goes-to-the-caller-s-continuation-under-the-caller-s-bindings] a0 == vm && a3 == k && a4 == env
